@@ -3,11 +3,12 @@
 # proofs, driver), pinned driver copy, correspondence harness.
 set -e
 export GOFLAGS=-mod=mod GOPROXY=off GOSUMDB=off GOTOOLCHAIN=local
-V=/verif
+V=${VERIF_ROOT:-$(cd "$(dirname "$0")/.." && pwd)}
+export VERIF_ROOT=$V
 mkdir -p $V/build $V/evidence $V/replays
 (cd $V/harness/extract && go build -o $V/build/extract .)
 # pinned driver: built from the committed (pinned) facts before anything is regenerated
-(cd $V/lean && git -C $V checkout -- lean/CorsVerif/Gen/Facts.lean 2>/dev/null || true)
+(cd $V && git checkout -- lean/CorsVerif/Gen/Facts.lean 2>/dev/null || true)
 (cd $V/lean && lake build driver && cp .lake/build/bin/driver $V/build/driver.pinned)
 $V/build/extract -repo /repo -out $V/lean/CorsVerif/Gen/Facts.lean
 (cd $V/lean && lake build CorsVerif driver)
